@@ -274,6 +274,7 @@ def run(prog: Program, rep, tier="quick"):
     r02_6(prog, rep, m, F)
     r02_7(prog, rep, m, F, fn)
     r02_8(prog, rep, m, F, fn)
+    r02_9(prog, rep, m, F, fn)
     rep.floor("R02.1", 18)
     rep.floor("R02.2", 5)
     rep.floor("R02.3", 8)
@@ -624,6 +625,36 @@ def r02_7(prog, rep, m, F, fn):
                    "index disagrees with the pack (git verify-pack rejects the index)", c.lineno)
     if n < 6:
         raise AnalysisError(f"expected >= 6 running crc32 updates in pack.py, found {n}")
+
+
+def r02_9(prog, rep, m, F, fn):
+    """(a) completing a thin pack asks the store for pending REF_DELTA bases in PACK ORDER (a sort key derived from the positions
+    of the waiting deltas), not in order of their names - a base that is itself a delta of this pack must be resolved in the
+    pack first, or it is appended a second time; (b) an object listed twice is written once: the header count and the index
+    (keyed by name) come from the de-duplicated list."""
+    rep.rule("R02.9", "thin-pack completion visits pending bases in pack order; objects listed twice are written once (count = number of distinct names)")
+    w = fn("DeltaChainIterator._walk_ref_chains")
+    srt = [c for c in ast.walk(w.node) if isinstance(c, ast.Call) and callee_name(c) == "sorted" and "_pending_ref" in norm(c)]
+    keyed = [c for c in srt if any(k.arg == "key" for k in c.keywords)]
+    rep.ob("R02.9", PACK, w.qual, "pending external bases are visited in pack order (sorted with a position key), not by name", bool(keyed) or not srt,
+           "sorted(self._pending_ref.items()) orders by object NAME: a base that is itself a delta in the pack and that the receiver already has is fetched from "
+           "the store when its name sorts before its own base's, and extend_pack appends it again - git verify-pack rejects the completed pack (duplicate base)",
+           (srt or [w.node])[0].lineno)
+    p = fn("pack_objects_to_data")
+    cnt = [s_ for s_ in ast.walk(p.node) if isinstance(s_, ast.Assign) and isinstance(s_.targets[0], ast.Name) and s_.targets[0].id == "count"]
+    ded = any(isinstance(c, ast.Call) and (callee_name(c) in ("set", "dict", "setdefault") or (isinstance(c.func, ast.Attribute) and c.func.attr in ("add", "setdefault", "fromkeys")))
+              for c in ast.walk(p.node) if getattr(c, "lineno", 10 ** 9) <= (cnt[0].lineno if cnt else 0))
+    rep.ob("R02.9", PACK, p.qual, "repeated objects are dropped before the header count is taken", bool(cnt) and ded,
+           "count = len(objects) counts an object listed twice twice, the index (a dict keyed by name) has it once: dulwich cannot open the pack it wrote "
+           "(length mismatch) and git rejects it", (cnt or [p.node])[0].lineno)
+    om = prog.module("dulwich/object_store.py")
+    ao = om.funcs.get("PackBasedObjectStore.add_objects")
+    if ao is None:
+        raise AnalysisError("object_store.PackBasedObjectStore.add_objects not found")
+    cnt = [s_ for s_ in ast.walk(ao.node) if isinstance(s_, ast.Assign) and isinstance(s_.targets[0], ast.Name) and s_.targets[0].id == "count"]
+    raw = [s_ for s_ in cnt if norm(s_.value) == "len(objects)"]
+    rep.ob("R02.9", om.rel, ao.qual, "the count handed to add_pack_data is that of the distinct objects", bool(cnt) and not raw,
+           "one blob at two paths is written twice into the pack: git verify-pack reports 'the same object appears twice in the pack'", (cnt or [ao.node])[0].lineno)
 
 
 def r02_8(prog, rep, m, F, fn):
